@@ -178,7 +178,20 @@ func SigScriptsFor(t *rapid.T, tx ref.Tx, idx int) SigProgram {
 	case "multisig":
 		n := nKeys
 		m := rapid.IntRange(0, n).Draw(t, "m")
-		lock = append(lock, num(m))
+		// counts may come as wide numbers that are congruent to the intended count modulo 2^32 or
+		// 2^64 (k + 2^32, k + 2^64, k - 2^64): an implementation that narrows them sees k
+		wide := func(k int, label string) []byte {
+			if rapid.IntRange(0, 14).Draw(t, label) != 0 {
+				return num(k)
+			}
+			v := new(big.Int).Lsh(big.NewInt(1), uint(rapid.SampledFrom([]int{32, 63, 64, 64}).Draw(t, label+"_bits")))
+			if rapid.IntRange(0, 3).Draw(t, label+"_neg") == 0 {
+				v.Neg(v)
+			}
+			v.Add(v, big.NewInt(int64(k)))
+			return Push(interp.EncodeNum(v), 0)
+		}
+		lock = append(lock, wide(m, "m_wide"))
 		for i := 0; i < n; i++ {
 			kp := keys[i].pub
 			if rapid.IntRange(0, 14).Draw(t, "badkey") == 0 {
@@ -190,7 +203,7 @@ func SigScriptsFor(t *rapid.T, tx ref.Tx, idx int) SigProgram {
 		if rapid.IntRange(0, 19).Draw(t, "ndecl_off") == 0 {
 			nDecl = n + rapid.SampledFrom([]int{-1, 1}).Draw(t, "ndecl_d")
 		}
-		lock = append(lock, num(nDecl), sigOp(verifyForm, 0xae))
+		lock = append(lock, wide(nDecl, "n_wide"), sigOp(verifyForm, 0xae))
 		// which keys sign: in order (success) most of the time
 		order := make([]int, 0, m)
 		switch rapid.IntRange(0, 5).Draw(t, "order") {
